@@ -83,42 +83,50 @@ LludpBad == {"short", "unkmsg"}                              \* cannot be decode
 CKinds == {"msg", "kill", "ucc", "banned", "badbody", "dom"} \cup SocksBad \cup LludpBad
 HKinds == {"msg", "kill", "ucc", "spoof", "banned", "badbody"} \cup LludpBad
 
-Ev(n, a, h, k, s) == [n |-> n, a |-> a, h |-> h, k |-> k, s |-> s]
+\* ch: a choice the property leaves to the implementation, bound to what is observed:
+\*   kill: whether CloseCircuit / DisableSimulator makes the proxy regard the circuit as no longer open
+\*   ucc : whether a UseCircuitCode naming a pending session claims it although the addressed
+\*         far host is no registered region of that session (no circuit can be opened then)
+Ev(n, a, h, k, s, ch) == [n |-> n, a |-> a, h |-> h, k |-> k, s |-> s, ch |-> ch]
 
 Init == /\ st = [s \in Sess |-> "absent"]
         /\ regs = [s \in Sess |-> {}]
         /\ sess = [a \in Assoc |-> NoSess]
         /\ circ = [s \in Sess |-> [h \in Sims |-> "none"]]
-        /\ ev = Ev("Init", 0, 0, "", 0)
+        /\ ev = Ev("Init", 0, 0, "", 0, FALSE)
         /\ out = NoOut
 
 (* environment: the login HTTP response was intercepted / a new region was announced *)
 Login(s) == /\ st[s] = "absent"
             /\ st' = [st EXCEPT ![s] = "pending"]
             /\ regs' = [regs EXCEPT ![s] = {LoginSim(s)}]
-            /\ ev' = Ev("Login", 0, 0, "", s) /\ out' = NoOut
+            /\ ev' = Ev("Login", 0, 0, "", s, FALSE) /\ out' = NoOut
             /\ UNCHANGED <<sess, circ>>
 AddRegion(s, h) == /\ st[s] # "absent" /\ h \in Extra(s) \ regs[s]
                    /\ regs' = [regs EXCEPT ![s] = @ \cup {h}]
-                   /\ ev' = Ev("Reg", 0, h, "", s) /\ out' = NoOut
+                   /\ ev' = Ev("Reg", 0, h, "", s, FALSE) /\ out' = NoOut
                    /\ UNCHANGED <<st, sess, circ>>
 
 Discard == out' = NoOut /\ UNCHANGED pvars
 
+HasCircuit(a, h) == sess[a] # NoSess /\ h \in Sims /\ circ[sess[a]][h] # "none"
+IsOpen(a, h) == sess[a] # NoSess /\ h \in Sims /\ circ[sess[a]][h] = "open"
+CanClaim(a, s) == sess[a] = NoSess /\ s # NoSess /\ st[s] = "pending"
+
 \* a decodable (at least by its header) datagram travelling on circuit (sess[a], h)
-OnCircuit(a, h, k, dirn) ==
+OnCircuit(a, h, k, dirn, ch) ==
     LET cs == sess[a] IN
-    IF cs # NoSess /\ h \in Sims /\ circ[cs][h] # "none"
+    IF HasCircuit(a, h)
     THEN /\ out' = [sends |-> <<IF dirn = "C" THEN ToSim(a, h) ELSE ToViewer(a, h)>>,
                     may |-> (circ[cs][h] = "dead" \/ k = "badbody" \/ (k = "banned" /\ dirn = "C"))]
-         /\ circ' = IF k = "kill" THEN [circ EXCEPT ![cs][h] = "dead"] ELSE circ
+         /\ circ' = IF k = "kill" /\ ch THEN [circ EXCEPT ![cs][h] = "dead"] ELSE circ
          /\ UNCHANGED <<st, regs, sess>>
     ELSE Discard
 
 \* UseCircuitCode from the viewer, naming session s (NoSess: an ID no login produced)
-UseCircuit(a, h, s) ==
-    LET claim == sess[a] = NoSess /\ s # NoSess /\ st[s] = "pending"
-        cs == IF sess[a] # NoSess THEN sess[a] ELSE IF claim THEN s ELSE NoSess
+UseCircuit(a, h, s, ch) ==
+    LET cs == IF sess[a] # NoSess THEN sess[a]
+              ELSE IF CanClaim(a, s) /\ (h \in regs[s] \/ ch) THEN s ELSE NoSess
     IN IF cs = NoSess THEN Discard
        ELSE /\ sess' = [sess EXCEPT ![a] = cs]
             /\ st' = [st EXCEPT ![cs] = "claimed"]
@@ -129,34 +137,37 @@ UseCircuit(a, h, s) ==
                ELSE /\ UNCHANGED circ /\ out' = NoOut
 
 \* a datagram from the viewer of association a, SOCKS-addressed to far host h
-Client(a, h, k, s) ==
-    /\ ev' = Ev("C", a, h, k, s)
+Client(a, h, k, s, ch) ==
+    /\ ev' = Ev("C", a, h, k, s, ch)
     /\ k = "ucc" => (sess[a] # NoSess => s = sess[a])   \* a viewer names its own session
     /\ k # "ucc" => s = NoSess
+    /\ ch => \/ (k = "kill" /\ IsOpen(a, h))
+             \/ (k = "ucc" /\ CanClaim(a, s) /\ h \notin regs[s])
     /\ IF k \in SocksBad \cup LludpBad \cup {"dom"} THEN Discard
-       ELSE IF k = "ucc" THEN UseCircuit(a, h, s)
-       ELSE OnCircuit(a, h, k, "C")
+       ELSE IF k = "ucc" THEN UseCircuit(a, h, s, ch)
+       ELSE OnCircuit(a, h, k, "C", ch)
 
 \* a datagram from far host h arriving at the socket of association a.
 \* "ucc": a UseCircuitCode naming session s coming FROM a far host is an ordinary message, it
 \* claims nothing.  "spoof": a stranger (not on the viewer's IP) sends what a viewer would send,
 \* a well-formed SOCKS5 UDP request for a simulator carrying a valid message.
-Host(a, h, k, s) ==
-    /\ ev' = Ev("H", a, h, k, s)
+Host(a, h, k, s, ch) ==
+    /\ ev' = Ev("H", a, h, k, s, ch)
     /\ k # "ucc" => s = NoSess
     /\ k = "spoof" => h = Unk
+    /\ ch => (k = "kill" /\ IsOpen(a, h))
     /\ IF k \in LludpBad \cup {"banned", "spoof"} THEN Discard
-       ELSE OnCircuit(a, h, k, "H")
+       ELSE OnCircuit(a, h, k, "H", ch)
 
 Far == Sims \cup {Unk}
 \* a viewer can also mis-address a datagram to a viewer's own address (0 - b: viewer of association b)
 CFar == Far \cup {0 - b : b \in Assoc}
 Next == \/ \E s \in Sess : Login(s)
         \/ \E s \in Sess, h \in Sims : AddRegion(s, h)
-        \/ \E a \in Assoc, h \in CFar, k \in CKinds \ {"ucc"} : Client(a, h, k, NoSess)
-        \/ \E a \in Assoc, h \in CFar, s \in Sess \cup {NoSess} : Client(a, h, "ucc", s)
-        \/ \E a \in Assoc, h \in Far, k \in HKinds \ {"ucc"} : Host(a, h, k, NoSess)
-        \/ \E a \in Assoc, h \in Far, s \in Sess \cup {NoSess} : Host(a, h, "ucc", s)
+        \/ \E a \in Assoc, h \in CFar, k \in CKinds \ {"ucc"}, ch \in BOOLEAN : Client(a, h, k, NoSess, ch)
+        \/ \E a \in Assoc, h \in CFar, s \in Sess \cup {NoSess}, ch \in BOOLEAN : Client(a, h, "ucc", s, ch)
+        \/ \E a \in Assoc, h \in Far, k \in HKinds \ {"ucc"}, ch \in BOOLEAN : Host(a, h, k, NoSess, ch)
+        \/ \E a \in Assoc, h \in Far, s \in Sess \cup {NoSess} : Host(a, h, "ucc", s, FALSE)
 Spec == Init /\ [][Next]_vars
 
 (****************************** the property *******************************)
@@ -204,8 +215,13 @@ DiscardClass == \/ ev'.k \in SocksBad \cup LludpBad \cup {"dom"}
                 \/ (~IsViewerUCC /\ ev'.h \in Sims /\ sess[ev'.a] # NoSess /\ circ[sess[ev'.a]][ev'.h] = "none")
 DiscardsInert == [][(ev'.n \in {"C", "H"} /\ DiscardClass) => Inert]_vars
 \* a datagram on one association never touches a session held by another one, and apart from
-\* UseCircuitCode (claim, open) and CloseCircuit/DisableSimulator (dead) no datagram changes state
+\* UseCircuitCode (claim, open) and CloseCircuit/DisableSimulator (dead) no datagram changes state;
+\* a datagram that is delivered exactly once leaves an open circuit open unless it is one of those two
 NoCrossTalk == [][ev'.n \in {"C", "H"} =>
                     \A s \in Sess : s # sess'[ev'.a] => (st'[s] = st[s] /\ circ'[s] = circ[s] /\ regs'[s] = regs[s])]_vars
-OnlyNamedChanges == [][(ev'.n \in {"C", "H"} /\ ~IsViewerUCC /\ ev'.k # "kill") => UNCHANGED pvars]_vars
+OnlyNamedChanges == [][(ev'.n \in {"C", "H"} /\ ~IsViewerUCC /\ ~(ev'.k = "kill" /\ ev'.ch)) => UNCHANGED pvars]_vars
+\* a claim happens only through a viewer's UseCircuitCode naming a pending session; with a registered
+\* region as destination it is not optional
+ClaimRule == [][(ev'.n = "C" /\ ev'.k = "ucc" /\ CanClaim(ev'.a, ev'.s) /\ ev'.h \in regs[ev'.s])
+                  => (sess'[ev'.a] = ev'.s /\ circ'[ev'.s][ev'.h] = "open" /\ Len(out'.sends) = 1)]_vars
 =============================================================================
